@@ -534,6 +534,9 @@ inductive AccKind where
   | vecMulti (k : Nat)
   /-- `SplitIntoBins(Split(k * [Sum()]), Variable(var, ident), [lo, …, hi])`: `k` values per `compute()` -/
   | sibMulti (var : String) (lo hi : Int) (k : Nat)
+  /-- `lena.structures.NumpyHistogram(bins=[0, 1, 2, 3, 4], reset=False)` (`fill`/`request`,
+  lena/structures/numpy_histogram.py); with `reset=True` a `request()` is this `request()` followed by `reset()` -/
+  | numpyHist
   deriving Repr, DecidableEq
 
 /-- state of an accumulator: `_total`/`_sum`, `_count`/`count`, `_cur_context` (`none`: the `{}` that
@@ -637,6 +640,10 @@ def accFill (ns : Nat) (k : AccKind) (s : AccSt) (x : HItem) : M AccSt :=
     -- data, self._cur_context = lena.flow.get_data_context(value)
     let c ← getCtx ns x
     pure { s with count := s.count + 1, cur := some c }
+  | .numpyHist => do
+    -- NumpyHistogram.fill: data, context = get_data_context(val); self._data.append(data); self._cur_context = context
+    let c ← getCtx ns x
+    pure { s with count := s.count + 1, cur := some c }
   | .sib _ lo hi => do
     -- data, context = get_data_context(val); context = copy.deepcopy(context)
     let c ← getCtx ns x
@@ -671,6 +678,11 @@ def accFill (ns : Nat) (k : AccKind) (s : AccSt) (x : HItem) : M AccSt :=
 context without typed variable) -/
 def setVariable (name : String) (v : Value) : Value :=
   .dict (dictSet (ctxOf v) "variable" (.dict [("name", .str name)]))
+
+/-- the `"histogram"` entry that `make_hist_context` writes for the histogram with edges `[0, 1, 2, 3, 4]`:
+`{"dim": 1, "nbins": [4], "ranges": [(0, 4)]}` -/
+def histContext : Value :=
+  .dict [("dim", .int 1), ("nbins", .list [.int 4]), ("ranges", .list [.tup [.int 0, .int 4]])]
 
 /-- `compute()` / `request()` of the accumulators: the new state and what is yielded -/
 def accCompute (ns : Nat) (k : AccKind) (s : AccSt) : M (AccSt × Resp Skel) :=
@@ -777,6 +789,15 @@ def accCompute (ns : Nat) (k : AccKind) (s : AccSt) : M (AccSt × Resp Skel) :=
     (if s.count = 0 then pure () else updM d (fun v => .dict (dictSet (ctxOf v) "dim" (.int 1))))
     -- yield (self, self._context)
     pure ({ s with cur := some c }, { outs := [mkItem (.str "graph") (some d)] })
+  | .numpyHist => do
+    -- NumpyHistogram.request: hist = histogram(edges, bins); context = hf.make_hist_context(hist, self._cur_context)
+    -- make_hist_context (hist_functions.py:622-646): context = copy.deepcopy(context);
+    -- context.update({"histogram": {"dim": hist.dim, "nbins": hist.nbins, "ranges": hist.ranges}}); return context
+    let c ← curTok ns s
+    let d ← copyM ns c
+    updM d (fun v => .dict (dictSet (ctxOf v) "histogram" histContext))
+    -- yield (hist, context)
+    pure ({ s with cur := some c }, { outs := [mkItem (.str "hist") (some d)] })
   | .storeGroup => do
     -- yield self.group[:]
     let l ← allocM ns (.list [])
@@ -815,9 +836,10 @@ inductive Step where
   | mkfn (name : String)
   /-- user element: `context.setdefault("tags", []).append(name)` -/
   | tag (name : String)
-  /-- user element: `if isinstance(data, list): data.append(v)` -/
+  /-- user element: `if isinstance(data, list): data.append(v)` (the harness treats every list-like object — list
+  subclass, deque, bytearray — alike: the model does not know the class of an object, only its content) -/
   | app (v : Int)
-  /-- user element: `if isinstance(data, dict): data[key] = v` -/
+  /-- user element: `if isinstance(data, dict): data[key] = v` (for an object with attributes: `setattr(data, key, v)`) -/
   | setd (key : String) (v : Int)
   /-- `lena.flow.Count(name)` -/
   | count (name : String)
@@ -826,6 +848,12 @@ inductive Step where
   /-- user Run element, last of a plain sequence: after the values of every `run(flow)` it yields a new value
   `(-1, {"end": k})`, `k` = number of runs so far (so it yields for an empty flow, too) -/
   | emit
+  /-- user element: changes in place every mutable object reachable from the data (`deepTouch(data, v)`: every
+  dictionary / object gets the entry `m = v`, every list-like object the element `v`, at every depth) -/
+  | touch (v : Int)
+  /-- user element: the same for the context (`data, context = get_data_context(value); deepTouch(context, v);
+  return (data, context)`) -/
+  | touchc (v : Int)
   deriving Repr, DecidableEq
 
 /-- `subdict = context; for key in keys[:-1]: if key not in subdict or not isinstance(subdict[key],
@@ -872,6 +900,23 @@ def appendIfList (v : Int) : Value → Value
 def setIfDict (key : String) (v : Int) : Value → Value
   | .dict kvs => .dict (dictSet kvs key (.int v))
   | o => o
+
+/-! `deepTouch(obj, v)` of the harness on the content of one cell (the objects nested in a cell are part of its
+content): first the children, then the object itself — a dictionary or an object with attributes gets `m = v`, a
+list-like object gets `v` appended, a tuple only has its members touched, scalars are immutable. -/
+mutual
+def touchVal (v : Int) : Value → Value
+  | .list xs => .list (touchList v xs ++ [.int v])
+  | .tup xs => .tup (touchList v xs)
+  | .dict kvs => .dict (dictSet (touchKvs v kvs) "m" (.int v))
+  | o => o
+def touchList (v : Int) : List Value → List Value
+  | [] => []
+  | x :: xs => touchVal v x :: touchList v xs
+def touchKvs (v : Int) : List (String × Value) → List (String × Value)
+  | [] => []
+  | (k, x) :: rest => (k, touchVal v x) :: touchKvs v rest
+end
 
 /-- `getter(data)` of the harness variables -/
 def getter : Option Value → Option Value
@@ -928,6 +973,18 @@ def applyStep (ns : Nat) (e : Step) (n : Nat) (x : HItem) : M (Nat × Option HIt
     -- Slice.fill_into: the value with index `m` raises LenaStopFill; earlier ones are passed on
     if n ≥ m then pure (n, none) else pure (n + 1, some x)
   | .emit => pure (n, some x)
+  | .touch v =>
+    -- data = get_data(value); deepTouch(data, v); return value
+    match x.dataTok with
+    | some d => do
+      updM d (touchVal v)
+      pure (n, some x)
+    | none => pure (n, some x)
+  | .touchc v => do
+    -- data, context = get_data_context(value); deepTouch(context, v); return (data, context)
+    let c ← getCtx ns x
+    updM c (touchVal v)
+    pure (n, some (x.withCtx c))
 
 /-- the chain of `_Fill` objects of a `FillSeq`: every element transforms the value and fills the
 next.  Returns the counters of the elements and the value that reaches the end (`none`:
